@@ -229,6 +229,7 @@ LikeOK(r) ==
   /\ r.res = "ok"
   /\ IsEncodingOf(r.E, r.ty, r.v, r.out)            \* byte for byte the encoding of the B-value
   /\ r.dres = "ok" /\ r.dv = r.v /\ r.dn = Len(r.out) \* and B's decoder reads it back
+  /\ "bres" \in DOMAIN r => r.bres = "ok" /\ r.bdv = r.v   \* also through the shared-buffer back-end
   /\ \A i \in 1..Len(r.alts) :
         /\ r.alts[i].res = "ok"
         /\ IF r.alts[i].kind = "size" THEN r.alts[i].n = Len(r.out)
